@@ -506,6 +506,8 @@ type Contract struct {
 	ResultName string
 	Implements string
 	Logged     bool     // calls are appended to the ghost call log
+	LogPre     []*Expr  // extra values recorded from the pre-state (positions 10, 11, ...)
+	LogPost    []*Expr  // extra values recorded from the post-state (result positions 10, 11, ...)
 	Cuts       []string // source-text anchors: paths reaching such a line are not verified (listed)
 }
 
@@ -829,7 +831,26 @@ func (db *SpecDB) parseFile(fname, prefix, data string) {
 				cur.Cuts = append(cur.Cuts, r[:j])
 				db.Assumes = append(db.Assumes, fmt.Sprintf("%s: code from the line containing %q onwards is NOT verified (%s)", cur.Key, r[:j], strings.TrimSpace(r[j+1:])))
 			case "logged":
+				// logged [pre: E1, E2 ...] [; post: F1, F2 ...]
 				cur.Logged = true
+				for _, part := range strings.Split(rest, ";") {
+					part = strings.TrimSpace(part)
+					var dst *[]*Expr
+					if strings.HasPrefix(part, "pre:") {
+						dst = &cur.LogPre
+						part = part[4:]
+					} else if strings.HasPrefix(part, "post:") {
+						dst = &cur.LogPost
+						part = part[5:]
+					} else {
+						continue
+					}
+					for _, x := range splitTop(part) {
+						if strings.TrimSpace(x) != "" {
+							*dst = append(*dst, pe(x))
+						}
+					}
+				}
 			case "noraise":
 				cur.NoRaise = true
 			case "noreturn":
